@@ -37,7 +37,7 @@ CHECKS = {
              technique="CrossHair (z3) symbolic execution of init_from_template / ZorgTemplateManager.render / _build_template_in_dir / process_var_map over an in-memory directory and template environment",
              note="stubs: in-memory FS and template environment (jinja2 trusted, real in replay), strptime model; pattern maps, targets, variable maps from finite menus"),
  "C17": dict(design="§6 C17", engine="XH",
-             technique="CrossHair (z3) symbolic execution of run_action_open and the _open_* functions over lines built from prefix/word/punctuation menus, against an oracle written from the statement, plus the option-k relational clause",
+             technique="CrossHair (z3) over lines built from prefix/word/punctuation menus against an oracle written from the statement, plus the option-k relational clause: the whole menu product through one solver-chosen table index (real run_action_open and _open_* functions executed for the chosen entry), and the primary-ZID / continuation-line prefixes again with the runner under CrossHair's tracing",
              note="stubs: in-memory FS, captured print, index lookups from a harness index (real SQLite in replay), init_from_template/subprocess/.zoq refresh recorded; cite keys and named URLs outside"),
  "C01": dict(design="§3 C01", engine="XH+ATN",
              technique="skeleton + holes: real lexer/parser concretely, real ParseTreeWalker + ZorgFileCompiler under CrossHair (z3) with symbolic token texts, oracle from the abstract page; z3 regex inclusion of the hole classes on the real lexer ATN",
